@@ -1,5 +1,8 @@
 ---- MODULE MC_LinkedStatics ----
 EXTENDS LinkedStatics, Json
 \* Generator: one witness behaviour per distinct terminal state (hist is hidden from the fingerprint by VIEW).
-GenBeh == Done => PrintT(<<"BEH", ToJson([deps |-> deps, progs |-> [i \in 1..NT |-> prog0[i - 1]], script |-> hist])>>)
+Beh == ToJson([deps |-> deps, progs |-> [i \in 1..NT |-> prog0[i - 1]], script |-> hist])
+GenBeh == Done => PrintT(<<"BEH", Beh>>)
+CexBeh == (~JudgeOk \/ ~EndOk \/ ~NoStuck) => PrintT(<<"CEX", Beh>>)
+CexBehSafe == (~JudgeOk \/ ~EndOk) => PrintT(<<"CEX", Beh>>)
 ====
